@@ -38,10 +38,28 @@ const METHODS: [Method; 3] = [Method::Get, Method::Put, Method::Patch];
 const PATHS: [&str; 8] = ["", "/", "/a", "/a/b", "/ab", "/a:b", "a", ":"];
 const PREFIXES: [&str; 3] = ["", "/p", "/a"];
 
-fn case_json(prefix: &str, regs: &[(usize, usize)], method: usize, uri: &str) -> J {
+/// Path table 0: the short paths above. Table 1: eight long paths that share their first 254 bytes, with
+/// lengths around 256 (so that prefix + path crosses 255 / 256 / 257 for every prefix) and beyond.
+fn paths_of(table: usize) -> Vec<String> {
+    if table == 0 {
+        return PATHS.iter().map(|p| p.to_string()).collect();
+    }
+    let base = |n: usize| -> String {
+        let mut p = String::from("/");
+        while p.len() < n {
+            p.push((b'a' + (p.len() % 26) as u8) as char);
+        }
+        p
+    };
+    vec![base(254), base(255), base(256), base(257), format!("{}/y", base(256)), base(258), base(300), base(512)]
+}
+
+fn case_json(table: usize, prefix: &str, regs: &[(usize, usize)], method: usize, uri: &str) -> J {
+    let paths = paths_of(table);
     J::obj(vec![
         ("prefix", J::s(prefix)),
-        ("registrations", J::Arr(regs.iter().map(|(m, p)| J::s(&format!("{} {}", METHODS[*m].to_str(), PATHS[*p]))).collect())),
+        ("table", J::u(table as u64)),
+        ("registrations", J::Arr(regs.iter().map(|(m, p)| J::s(&format!("{} {}", METHODS[*m].to_str(), paths[*p]))).collect())),
         ("regs_idx", J::Arr(regs.iter().map(|(m, p)| J::u((*m * 8 + *p) as u64)).collect())),
         ("request_method", J::u(method as u64)),
         ("request_uri", J::s(uri)),
@@ -50,14 +68,20 @@ fn case_json(prefix: &str, regs: &[(usize, usize)], method: usize, uri: &str) ->
 
 /// Builds the table, checks registration results, then dispatches every request of `uris`.
 fn check_table(ctx: &mut Ctx, prefix: &str, regs: &[(usize, usize)], uris: &[String], only: Option<(usize, &str)>) -> bool {
+    check_table_t(ctx, 0, prefix, regs, uris, only)
+}
+
+fn check_table_t(ctx: &mut Ctx, table: usize, prefix: &str, regs: &[(usize, usize)], uris: &[String], only: Option<(usize, &str)>) -> bool {
+    let paths = paths_of(table);
+    let case_json = |prefix: &str, regs: &[(usize, usize)], method: usize, uri: &str| case_json(table, prefix, regs, method, uri);
     let server_id = "srv-under-test";
     let mut router: HttpRoutes<Log> = HttpRoutes::new(server_id.to_string(), prefix.to_string());
     // M7
     let mut model: Vec<(usize, String, usize)> = Vec::new(); // (method, full path, handler id)
     for (i, (m, p)) in regs.iter().enumerate() {
-        let full = format!("{}{}", prefix, PATHS[*p]);
+        let full = format!("{}{}", prefix, paths[*p]);
         let dup = model.iter().any(|(mm, ff, _)| mm == m && *ff == full);
-        let res = guarded(|| router.add_route(METHODS[*m], PATHS[*p].to_string(), Box::new(Recorder { id: i })));
+        let res = guarded(|| router.add_route(METHODS[*m], paths[*p].clone(), Box::new(Recorder { id: i })));
         ctx.rep.count("registrations");
         match res {
             Err(p) => {
@@ -159,9 +183,13 @@ fn check_table(ctx: &mut Ctx, prefix: &str, regs: &[(usize, usize)], uris: &[Str
 }
 
 fn request_uris(prefix: &str) -> Vec<String> {
+    request_uris_t(0, prefix)
+}
+
+fn request_uris_t(table: usize, prefix: &str) -> Vec<String> {
     let mut v: Vec<String> = Vec::new();
     let mut paths: Vec<String> = Vec::new();
-    for p in PATHS {
+    for p in paths_of(table).iter() {
         paths.push(p.to_string());
         paths.push(format!("{}{}", prefix, p));
         for other in PREFIXES {
@@ -205,7 +233,7 @@ pub fn run(ctx: &mut Ctx) {
                 }
                 ctx.rep.count("tables_enumerated");
                 if ctx.rep.samples.len() < 4 && n % 97 == 13 {
-                    ctx.rep.sample(case_json(prefix, &regs, 0, &uris[n as usize % uris.len()]));
+                    ctx.rep.sample(case_json(0, prefix, &regs, 0, &uris[n as usize % uris.len()]));
                 }
                 if check_table(ctx, prefix, &regs, &uris, None) {
                     bad += 1;
@@ -216,6 +244,7 @@ pub fn run(ctx: &mut Ctx) {
             }
         }
     }
+    long_path_family(ctx);
     // random tables with 3..4 (quick) / 4..6 (thorough) registrations, duplicates likely
     let n_rand = ctx.budget(300, 20_000) / ctx.nshards + 1;
     let mut rng: Rng = ctx.rng.fork(0xC17);
@@ -234,6 +263,22 @@ pub fn run(ctx: &mut Ctx) {
     }
 }
 
+/// Long paths: routes whose prefix + path has 254..514 bytes and which are prefixes of one another.
+fn long_path_family(ctx: &mut Ctx) {
+    let n = ctx.budget(160, 8_000) / ctx.nshards + 1;
+    let mut rng: Rng = ctx.rng.fork(0xC17_256);
+    for _ in 0..n {
+        let prefix = *rng.pick(&PREFIXES);
+        let k = rng.range(1, 4);
+        let regs: Vec<(usize, usize)> = (0..k).map(|_| (rng.below(3), rng.below(8))).collect();
+        let uris = request_uris_t(1, prefix);
+        ctx.rep.count("tables_with_long_paths");
+        if check_table_t(ctx, 1, prefix, &regs, &uris, None) && ctx.rep.violations_total > 10 {
+            return;
+        }
+    }
+}
+
 pub fn replay(ctx: &mut Ctx, case: &J) {
     ctx.only_case = None;
     let prefix = case.gs("prefix");
@@ -242,5 +287,5 @@ pub fn replay(ctx: &mut Ctx, case: &J) {
     let m = case.gu("request_method") as usize;
     println!("prefix {:?} registrations {:?} request {} {:?}", prefix, regs, METHODS[m.min(2)].to_str(), uri);
     let uris = vec![uri.clone()];
-    check_table(ctx, &prefix, &regs, &uris, if uri.is_empty() { None } else { Some((m, uri.as_str())) });
+    check_table_t(ctx, case.gu("table") as usize, &prefix, &regs, &uris, if uri.is_empty() { None } else { Some((m, uri.as_str())) });
 }
